@@ -301,8 +301,13 @@ func Envelope(msg p2pmsg.Message, versionOk bool) []byte {
 
 // EnvelopeVersioned marshals the message into an envelope with the given version string.
 func EnvelopeVersioned(msg p2pmsg.Message, version string) []byte {
+	return EnvelopeFull(msg, version, nil)
+}
+
+// EnvelopeFull marshals the message into an envelope with the given version string and trace field.
+func EnvelopeFull(msg p2pmsg.Message, version string, tc *p2pmsg.TraceContext) []byte {
 	if version == p2pmsg.EnvelopeVersion {
-		b, err := p2pmsg.Marshal(msg, nil)
+		b, err := p2pmsg.Marshal(msg, tc)
 		if err != nil {
 			panic(err)
 		}
@@ -312,7 +317,7 @@ func EnvelopeVersioned(msg p2pmsg.Message, version string) []byte {
 	if err != nil {
 		panic(err)
 	}
-	b, err := marshalLax(&p2pmsg.Envelope{Version: version, Message: a})
+	b, err := marshalLax(&p2pmsg.Envelope{Version: version, Message: a, Trace: tc})
 	if err != nil {
 		panic(err)
 	}
@@ -333,6 +338,14 @@ func marshalLax(m proto.Message) ([]byte, error) {
 		out = protowire.AppendBytes(out, []byte(e.Version))
 		out = protowire.AppendTag(out, 2, protowire.BytesType)
 		out = protowire.AppendBytes(out, inner)
+		if e.Trace != nil {
+			tb, err3 := proto.Marshal(e.Trace)
+			if err3 != nil {
+				return nil, err3
+			}
+			out = protowire.AppendTag(out, 3, protowire.BytesType)
+			out = protowire.AppendBytes(out, tb)
+		}
 		return out, nil
 	}
 	return b, nil
